@@ -1,7 +1,7 @@
 //! Model of the `regex` engine for the pattern class that `LazyRegex` builds from rule
 //! patterns made of escaped literal text and parenthesised groups:
 //!
-//!   pattern := ".*" | ['^'] item* ['$']
+//!   pattern := ".*" | "^.*$" | ['^'] item* ['$']
 //!   item    := literal | '\' punct | '.' | '(' ['?:'] item* ')'
 //!
 //! Groups are transparent (no alternation / quantifiers inside the class).  A pattern that is
@@ -59,8 +59,15 @@ fn is_alnum(c: u8) -> bool {
     (c >= b'a' && c <= b'z') || (c >= b'A' && c <= b'Z') || (c >= b'0' && c <= b'9')
 }
 
+fn is_anchored_any(p: &[u8]) -> bool {
+    p.len() == 4 && p[0] == b'^' && p[1] == b'.' && p[2] == b'*' && p[3] == b'$'
+}
+
 pub fn valid(p: &[u8]) -> bool {
     if p.len() == 2 && p[0] == b'.' && p[1] == b'*' {
+        return true;
+    }
+    if is_anchored_any(p) {
         return true;
     }
     let mut depth: i32 = 0;
@@ -161,6 +168,17 @@ impl Regex {
         let p = self.pat.as_bytes();
         let h = hay.as_bytes();
         if p.len() == 2 && p[0] == b'.' && p[1] == b'*' {
+            return true;
+        }
+        if is_anchored_any(p) {
+            // `.` does not match a newline and `$` only matches at the very end
+            let mut i = 0;
+            while i < h.len() {
+                if h[i] == b'\n' {
+                    return false;
+                }
+                i += 1;
+            }
             return true;
         }
         if !p.is_empty() && p[0] == b'^' {
